@@ -11,7 +11,8 @@ Stores the result under /verif/seeded/<PROP>-<N>/ (patch.diff, demo/, report.md,
 (The registered checks themselves always run in /verif against /repo; this tool is only for self-validation.)"""
 import json, os, shutil, subprocess, sys, time
 V = os.path.dirname(os.path.dirname(os.path.abspath(__file__)))
-SRC = "/tmp/verif-snap" if os.path.isdir("/tmp/verif-snap") and "--snap" in sys.argv else V  # --snap: a clean snapshot of the committed tree; default: /verif as it is on disk now
+SNAP = os.environ.get("VERIF_SNAP", "/tmp/verif-snap")
+SRC = SNAP if os.path.isdir(SNAP) and "--snap" in sys.argv else V  # --snap: a clean snapshot of the committed tree; default: /verif as it is on disk now
 ENV = dict(os.environ, GOFLAGS="-mod=mod", GOPROXY="off", GOSUMDB="off", GOTOOLCHAIN="local")
 
 
